@@ -2,6 +2,8 @@
 use crate::engine::Ctx;
 use serde_json::Value;
 
+pub fn c01_node(_ctx: &Ctx) {}
+
 pub fn c02_node(_ctx: &Ctx) {}
 
 pub fn c03_node(_ctx: &Ctx) {}
